@@ -26,6 +26,9 @@
 (*   task_graph() when a call is made       | LBeginObs / EagerBeginObs     *)
 (*   which cache a call inside a block uses | OwnCacheInBlock               *)
 (*     (Pipeline._current_cache)            |                               *)
+(*   the pipeline was put together by       | d.asm ; PipelineIsLazy        *)
+(*     join / `|` / copy from pipelines     |   (guard of LBegin)           *)
+(*     that exist (Pipeline.join, .copy)    |                               *)
 (*                                                                         *)
 (* Property C18: the deferred object evaluates to the eager result (both    *)
 (* are Eval of PipelineStatic: the eager call is PipelineCall!Return, the   *)
@@ -249,6 +252,58 @@ ReferenceGraphFor(dd, k, o, Hit, full) ==
 ReferenceGraph(dd, k, o) == ReferenceGraphFor(dd, k, o, {}, FALSE)
 
 ---------------------------------------------------------------------------
+(* How the pipeline object was obtained (assembly).                                                                          *)
+(* `lazy` is a setting of the pipeline OBJECT (Pipeline.__init__(lazy=)), and the pipeline that is called need not have been *)
+(* constructed directly: it may be DERIVED from pipelines that exist.  Optional fields of a description: `asm` for the        *)
+(* pipeline under call (absent: Pipeline(d.funcs, lazy=True)), `easm` for its eager twin (absent: Pipeline(d.funcs)).        *)
+(*                                                                                                                           *)
+(*   code                                        | an assembly  [op, parts, post]                                            *)
+(*   --------------------------------------------+-------------------------------------------------------------------------- *)
+(*   Pipeline(k functions, lazy=b)               | a part [kind |-> "pipeline", n |-> k, lazy |-> b]: the next k functions   *)
+(*                                               |   of the listing d.funcs (the parts, concatenated, are the listing)      *)
+(*   a bare PipeFunc, joined as it is            | a part [kind |-> "func", n |-> 1, lazy |-> FALSE] (it has no settings)    *)
+(*   the only part, used as constructed          | op = "direct"                                                            *)
+(*   p1.join(p2, .., pk)                         | op = "join": ONE derivation, receiver p1                  (Pipeline.join)  *)
+(*   p1 | p2 | .. | pk                           | op = "or"  : k-1 derivations, the receiver of each is the result so far   *)
+(*                                               |              (Pipeline.__or__ = self.join(other), left-associative)       *)
+(*   .copy() / .copy(lazy=True) / (lazy=False)   | post: <<.., "copy" / "copy_lazy" / "copy_eager", ..>> applied in order     *)
+(*                                               |                                                          (Pipeline.copy)  *)
+(* Every derivation is a copy of its receiver (Pipeline.join ends in self.copy(functions = all the functions, ...)): the     *)
+(* derived pipeline has the receiver's settings - `lazy` among them - except those the derivation states explicitly, and the *)
+(* functions the derivation collects.  So C18 speaks about every pipeline whose assembly yields lazy = TRUE (PipelineIsLazy), *)
+(* however it was put together: LBegin - the call that returns a deferred handle and invokes nothing - is the ONLY way such a *)
+(* pipeline can be called, and a pipeline whose assembly yields FALSE is an eager one (PipelineCall).                         *)
+(* Don't-care (not in the universe of MC_PipelineLazy): an eager receiver that collects the functions of lazy pipelines.     *)
+CopyKinds == {"copy", "copy_lazy", "copy_eager"}
+(* Pipeline.copy with an update: the receiver's settings, overridden by what the update states *)
+CopyFlag(b, upd) == CASE upd = "copy" -> b  []  upd = "copy_lazy" -> TRUE  []  upd = "copy_eager" -> FALSE
+(* Pipeline.join(self, *others) = self.copy(functions = ...): whatever the others are (flags: a sequence), they only contribute functions *)
+JoinFlag(recv, others) == CopyFlag(recv, "copy")
+(* p1 | p2 | .. | pk over the first k parts *)
+RECURSIVE OrFlag(_, _)
+OrFlag(parts, k) == IF k = 1 THEN parts[1].lazy ELSE JoinFlag(OrFlag(parts, k - 1), <<parts[k].lazy>>)
+RECURSIVE PostFlag(_, _, _)
+PostFlag(b, post, k) == IF k = 0 THEN b ELSE CopyFlag(PostFlag(b, post, k - 1), post[k])
+AsmFlag(a) == LET k == Len(a.parts)
+                  joined == CASE a.op = "direct" -> a.parts[1].lazy
+                              [] a.op = "join"   -> JoinFlag(a.parts[1].lazy, [i \in 1..(k - 1) |-> a.parts[i + 1].lazy])
+                              [] a.op = "or"     -> OrFlag(a.parts, k)
+              IN  PostFlag(joined, a.post, Len(a.post))
+RECURSIVE PartsLen(_, _)
+PartsLen(parts, k) == IF k = 0 THEN 0 ELSE parts[k].n + PartsLen(parts, k - 1)
+(* an assembly of a pipeline of n functions: the parts cover the listing, the receiver is a pipeline, a bare function is one function *)
+AsmWellFormed(a, n) == /\ Len(a.parts) >= 1 /\ PartsLen(a.parts, Len(a.parts)) = n
+                       /\ a.op \in {"direct", "join", "or"} /\ (a.op = "direct" <=> Len(a.parts) = 1)
+                       /\ a.parts[1].kind = "pipeline"
+                       /\ \A i \in 1..Len(a.parts) : /\ a.parts[i].kind \in {"pipeline", "func"} /\ a.parts[i].n >= 1
+                                                     /\ a.parts[i].lazy \in BOOLEAN
+                                                     /\ (a.parts[i].kind = "func" => (a.parts[i].n = 1 /\ ~a.parts[i].lazy))
+                       /\ \A j \in 1..Len(a.post) : a.post[j] \in CopyKinds
+(* the pipeline under call / its eager twin, as objects: is it a lazy pipeline? *)
+PipelineIsLazy(dd) == IF "asm" \in DOMAIN dd THEN AsmWellFormed(dd.asm, NF(dd)) /\ AsmFlag(dd.asm) ELSE TRUE
+TwinIsLazy(dd)     == IF "easm" \in DOMAIN dd THEN ~AsmWellFormed(dd.easm, NF(dd)) \/ AsmFlag(dd.easm) ELSE FALSE
+
+---------------------------------------------------------------------------
 (* Actions.  Eager calls of PipelineCall stay available when no handle is alive (the eager twin).             *)
 
 LReset  == /\ phase' = "idle" /\ out' = "" /\ kw' = <<>> /\ mode' = "call" /\ done' = {} /\ UNCHANGED d
@@ -259,7 +314,9 @@ Invoked == {<<i, ArgsOf(d, kw, i)>> : i \in done}
 LFinish == LReset /\ memo' = {x \in memo \cup Invoked : Cached(d, x[1])} /\ nh' = 0
 
 (* pipeline(o, **k) is entered on a lazy pipeline; g: under construct_dag() (necessarily so inside an open block) *)
+(* (only a pipeline that IS lazy, however it was assembled, hands out deferred handles - and it never does anything else) *)
 LBegin(o, k, m, g) == /\ phase = "idle" /\ ~lazy /\ (nh > 0 => g)
+                      /\ PipelineIsLazy(d)
                       /\ phase' = "building" /\ out' = o /\ kw' = k /\ mode' = m /\ done' = {} /\ UNCHANGED d
                       /\ lazy' = TRUE /\ dag' = g /\ nev' = 0 /\ count' = Zero(d) /\ val' = NoVal /\ graph' = NoGraph
                       /\ nfail' = Zero(d) /\ nfe' = 0 /\ bad' = 0
@@ -381,7 +438,7 @@ Eager(A) == ~lazy /\ nh = 0 /\ A /\ UNCHANGED lvars
 (* call is made (act: lazy.task_graph() is not None) is what the caller arranged (g) - in particular a call made after a *)
 (* block was left, however it was left, is not made under that block, and an eager call (made outside any block) sees none *)
 LBeginObs(o, k, m, g, act) == act = g /\ LBegin(o, k, m, g)
-EagerBeginObs(o, k, m, act) == ~act /\ Eager(Begin(o, k, m))
+EagerBeginObs(o, k, m, act) == ~act /\ ~TwinIsLazy(d) /\ Eager(Begin(o, k, m))
 (* the eager twin under its fault plan: an invocation completes (ECall) or raises (ECallFail), and then the call raises *)
 (* that exception (ERaise) and leaves nothing behind: a further eager call starts from scratch (PipelineCall!Begin).    *)
 ECall(i, args)     == ~Fails(eflt, i) /\ Eager(Call(i, args))
